@@ -33,10 +33,11 @@ ASSUMPTIONS = [
     'unambiguity is by construction of the model generator (every plain class '
     'has a required parameter no unrelated class uses; unions take one member '
     'per node kind/tag group; Any holds plain data)',
-    'round trips whose only failure mode is the recorded alias mechanism '
-    '(known finding of C18: a shared object is dumped with an anchor and the '
-    'shared node is rewritten in place on loading) are attributed to it only '
-    'if the same value with all sharing removed round-trips',
+    'a failing round trip of a value with shared objects is keyed as the '
+    'node-sharing mechanism (a shared object is dumped with an anchor and the '
+    'shared node rewritten in place on loading; once a known finding, since '
+    'repaired in the repository, so reported as a violation if it returns) '
+    'only if the same value with all sharing removed round-trips',
     'lone surrogates are excluded (not representable in a YAML stream)',
     'default-value sweetening compares with ==, so -0.0 is dropped for a '
     'default of 0.0 and returns as 0.0: that sign change is not judged',
@@ -325,6 +326,8 @@ def shard(ctx):
             run_value(ctx, spec, t, v)
     for _ in range(ctx.budget(1500, 20000)):
         run_defaults_family(ctx, rng)
+    for _ in range(ctx.budget(1500, 20000)):
+        run_roster_family(ctx, rng)
     spec0 = {'classes': [], 'doc_type': 'any'}
     xspec = {'classes': [{'name': 'X1', 'kind': 'plain', 'extra': True,
                           'params': [{'name': 'x1_id', 'type': 'int'},
@@ -446,6 +449,81 @@ def run_defaults_family(ctx, rng):
     run_value(ctx, spec, spec['doc_type'], objs)
     for o in objs:
         run_value(ctx, spec, ['cls', type(o).__name__], o)
+
+
+def roster_family(rng):
+    """An owner class with two attributes of one roster type (a list or dict
+    of item objects), only the first of which is written in the keyed form
+    (structural sweetener with its inverse savorizer)."""
+    mode = rng.choice(['index', 'seq'])
+    va = 'it_val' if rng.random() < 0.6 else None
+    item = {'name': 'It', 'kind': 'plain', 'roster_item': True,
+            'params': [{'name': 'it_key', 'type': 'str'},
+                       {'name': 'it_val', 'type': 'int'}]}
+    if rng.random() < 0.4:
+        item['params'].append({'name': 'it_opt', 'type': 'str',
+                               'default': 'd'})
+    if mode == 'index':
+        ptype = ['dict', 'str', ['cls', 'It']]
+        sav = [['map_to_index', 'main', 'it_key', va]]
+        swe = [['index_to_map', 'main', 'it_key', va]]
+    else:
+        ptype = ['list', ['cls', 'It']]
+        sav = [['map_to_seq', 'main', 'it_key', va]]
+        swe = [['seq_to_map', 'main', 'it_key', va]]
+    owner = {'name': 'Own', 'kind': 'plain', 'roster': True,
+             'params': [{'name': 'own_id', 'type': 'int'},
+                        {'name': 'main', 'type': ptype},
+                        {'name': 'spare', 'type': ptype}],
+             'recognize': ['all', ['attr', 'own_id', None],
+                           ['attr', 'main', None]],
+             'savorize': sav, 'sweeten': swe}
+    return {'classes': [item, owner], 'doc_type': ['list', ['cls', 'Own']],
+            'profile': 'roster-family'}, mode
+
+
+def run_roster_family(ctx, rng):
+    spec, mode = roster_family(rng)
+    try:
+        m = H.model_of(spec)
+    except Exception as e:
+        ctx.note('roster family: %r' % (e,))
+        return
+    spec = H.clean_spec(spec)
+    It, Own = m.classes['It'], m.classes['Own']
+    has_opt = any(p['name'] == 'it_opt' for p in spec['classes'][0]['params'])
+    pool = []
+
+    def items():
+        out = []
+        for k in rng.sample(['ka', 'kb', 'kc', 'kd'], rng.randint(0, 3)):
+            if pool and rng.random() < 0.3:
+                it = rng.choice(pool)       # the same item object again
+            else:
+                kw = {'it_key': k, 'it_val': rng.randint(0, 5)}
+                if has_opt and rng.random() < 0.5:
+                    kw['it_opt'] = rng.choice(['d', 'e'])
+                it = It(**kw)
+                pool.append(it)
+            if any(x._v_args['it_key'] == it._v_args['it_key'] for x in out):
+                continue
+            out.append(it)
+        if mode == 'index':
+            return {x._v_args['it_key']: x for x in out}
+        return out
+    conts = []
+
+    def cont():
+        if conts and rng.random() < 0.5:
+            return rng.choice(conts)        # the same container object again
+        c = items()
+        conts.append(c)
+        return c
+    owners = [Own(own_id=i, main=cont(), spare=cont())
+              for i in range(rng.randint(1, 3))]
+    ctx.count('roster_family_values')
+    run_value(ctx, spec, spec['doc_type'], owners)
+    run_value(ctx, spec, ['cls', 'Own'], owners[0])
 
 
 def shared_plain(rng):
